@@ -580,3 +580,4 @@ LEVEL_NOTE = ("Trusted: Lean kernel, axioms <= {propext, Classical.choice, Quot.
               "by addresses (root ids across trees); generators by the lists they yield; heapq.nlargest(2, l) by sorted(l, reverse=True)[:2]; "
               "the None entries a BinaryNode reports in `siblings` for empty slots are dropped before comparison. ancestors / descendants / "
               "leaves / siblings are compared as multisets by the tie (the theorems prove the exact order); node_path and go_to exactly.")
+RULE = RULE + ' Fourth session: BinaryNode moves of the histories also through the stealing left / right / children setters of the new parent.'
